@@ -565,6 +565,49 @@ def run(idx: ProgramIndex, rep: Report, tier: str, selftest: bool = True):
                             f"{fname(fn)}: operand `{op}` {what} without a dominating shape guard: an operand whose "
                             "shape is incompatible with the operator (e.g. a size-1 dimension where the matrix "
                             "dimension is expected) is broadcast / passed through instead of raising", fn.loc(node)), sample)
+    # ---------------------------------------------------------------- K
+    # product kernels of utils/ that EXPAND an operand parameter up to the operator's size: expand() stretches a size-1
+    # dimension silently, so the expansion must be dominated by a call of the shape-validation helper on that operand
+    rep.rule("C19.K", "utility product kernels validate an operand before expanding it to the operator's size", floor=1)
+    guards_f = shape_guard_functions(idx)
+    n_k = 0
+    for m_ in idx.modules.values():
+        if ".utils." not in m_.name:
+            continue
+        for fn in m_.functions.values():
+            if not isinstance(fn.node, ast.FunctionDef) or "matmul" not in fn.name:
+                continue
+            cfg = CFG(fn)
+            params = set(fn.params())
+            for node in cfg.stmt_nodes():
+                if node.kind != "stmt":
+                    continue
+                for x in ast.walk(node.ast):
+                    if not (isinstance(x, ast.Call) and isinstance(x.func, ast.Attribute) and x.func.attr in ("expand", "expand_as", "broadcast_to")
+                            and isinstance(x.func.value, ast.Name) and x.func.value.id in params and x.func.value.id in OPERAND_NAMES | {"tensor", "dense"}):
+                        continue
+                    p_ = x.func.value.id
+                    n_k += 1
+                    ok = None
+                    for d in cfg.dominators(node.id):
+                        dn = cfg.nodes[d]
+                        if dn.ast is None:
+                            continue
+                        for y in ast.walk(dn.ast):
+                            if isinstance(y, ast.Call) and (dotted(y.func) or "").split(".")[-1] in guards_f \
+                                    and any(isinstance(z, ast.Name) and z.id == p_ for a in y.args for z in ast.walk(a)):
+                                ok = short(y, 70)
+                    sample = {"kernel": fname(fn), "operand": p_, "expansion": short(x, 60), "validated_by": ok}
+                    if ok:
+                        rep.ok("C19.K", sample)
+                    else:
+                        rep.bad("C19.K", Finding(PROP, "C19.K", fname(fn), f"{p_}: {norm(x)}",
+                                                 f"{fname(fn)}: `{short(x, 60)}` expands the operand `{p_}` to the operator's size without a "
+                                                 "preceding shape validation: an operand with a size-1 row dimension is stretched to n rows and "
+                                                 "multiplied (reachable through the CG route of solve, which relies on _matmul to reject it)",
+                                                 fn.loc(x)), sample)
+    if n_k < 1:
+        rep.error("no operand expansion found in the utility product kernels (expected toeplitz_matmul)")
     rep.analysed["entry_point_definitions"] = per_name
     if n_defs < 35:
         rep.error(f"only {n_defs} definitions of contraction entry points found (expected >= 35)")
